@@ -17,6 +17,7 @@ structure Inter where
   mx : Rat
   step : Rat
   star : List Rat          -- knot values of the generating function (for the correspondence)
+  angle : Bool := false    -- a bonded interaction over bead triples: the variable is the angle at the middle bead
   deriving Repr
 
 /-- `Spline::GenerateGrid` -/
@@ -48,11 +49,15 @@ structure Sys where
   mols : List Nat
   bonds : List (Nat × Nat)
   inters : List Inter
+  angles : List (Nat × Nat × Nat) := []
   deriving Repr
 
 def boxOf (s : Sys) : Box := ⟨⟨s.L, 0, 0⟩, ⟨0, s.L, 0⟩, ⟨0, 0, s.L⟩⟩
 
-def excluded (s : Sys) (i j : Nat) : Bool := s.bonds.any fun (a, b) => (a == i && b == j) || (a == j && b == i)
+/-- `ExclusionList::CreateExclusions`: every pair of beads that share a bonded interaction (bond, or any two beads of an angle) -/
+def excluded (s : Sys) (i j : Nat) : Bool :=
+  (s.bonds.any fun (a, b) => (a == i && b == j) || (a == j && b == i)) ||
+  (s.angles.any fun (a, b, c) => i != j && (a == i || b == i || c == i) && (a == j || b == j || c == j))
 
 /-- the samples one frame contributes to interaction `it`: (i, j, connection vector from i to j, distance) -/
 def samples (s : Sys) (it : Inter) (pos : List V3) : List (Nat × Nat × V3 × Rat) :=
@@ -60,7 +65,7 @@ def samples (s : Sys) (it : Inter) (pos : List V3) : List (Nat × Nat × V3 × R
   let p := fun i => pos.getD i V3.zero
   let ty := fun i => s.types.getD i 0
   let cand : List (Nat × Nat) :=
-    if it.bonded then s.bonds
+    if it.angle then [] else if it.bonded then s.bonds
     else (List.range n).flatMap fun i => ((List.range n).filter fun j => i < j &&
       ((ty i == it.t1 && ty j == it.t2) || (ty i == it.t2 && ty j == it.t1)) && !excluded s i j).map fun j => (i, j)
   cand.filterMap fun (i, j) =>
@@ -68,10 +73,46 @@ def samples (s : Sys) (it : Inter) (pos : List V3) : List (Nat × Nat × V3 × R
     let r := ratSqrt d.normSq
     if it.bonded || d.normSq < it.mx * it.mx then some (i, j, d, r) else none
 
-/-- forces on all beads from splines with knot values `vals` and second derivatives `f2s` per interaction -/
-def predict (s : Sys) (tabs : List (List Rat × List Rat × List Rat)) (pos : List V3) : List V3 :=
+/-- one angle sample: the two arms from the middle bead, their lengths, the cosine and the sine of the angle -/
+structure AngleGeom where
+  i : Nat
+  j : Nat
+  k : Nat
+  u : V3
+  w : V3
+  n1 : Rat
+  n2 : Rat
+  c : Rat
+  sn : Rat
+
+def angleGeoms (s : Sys) (pos : List V3) : List AngleGeom :=
+  let p := fun i => pos.getD i V3.zero
+  s.angles.map fun (i, j, k) =>
+    let u := C02.micOrtho (boxOf s) (p j) (p i)
+    let w := C02.micOrtho (boxOf s) (p j) (p k)
+    let n1 := ratSqrt u.normSq
+    let n2 := ratSqrt w.normSq
+    let c := (u.x * w.x + u.y * w.y + u.z * w.z) / (n1 * n2)
+    { i := i, j := j, k := k, u := u, w := w, n1 := n1, n2 := n2, c := c, sn := ratSqrt (1 - c * c) }
+
+/-- gradients of the angle with respect to the two outer beads (`dθ/dc = -1/sin θ`); the middle bead takes minus their sum -/
+def angleGrads (g : AngleGeom) : V3 × V3 :=
+  let gi : V3 := (-(1 / g.sn)) * ((1 / (g.n1 * g.n2)) * g.w - (g.c / (g.n1 * g.n1)) * g.u)
+  let gk : V3 := (-(1 / g.sn)) * ((1 / (g.n1 * g.n2)) * g.u - (g.c / (g.n2 * g.n2)) * g.w)
+  (gi, gk)
+
+/-- forces on all beads from splines with knot values `vals` and second derivatives `f2s` per interaction; `thetas` are the
+    angle values of this frame (witnesses: the driver checks their cosines against the geometry) -/
+def predict (s : Sys) (tabs : List (List Rat × List Rat × List Rat)) (pos : List V3) (thetas : List Rat := []) : List V3 :=
   let n := pos.length
   let contrib : List (Nat × V3) := (s.inters.zip tabs).flatMap fun (it, (xs, fs, f2)) =>
+    if it.angle then
+      ((angleGeoms s pos).zip thetas).flatMap fun (g, th) =>
+        let S := C12.cubicCalc xs fs f2 th
+        let (gi, gk) := angleGrads g
+        -- EvalBonded enters `-gradient` for every bead of the interaction: F = -S(θ) ∇θ
+        [(g.i, (-S) * gi), (g.k, (-S) * gk), (g.j, S * (gi + gk))]
+    else
     (samples s it pos).flatMap fun (i, j, d, r) =>
       let S := C12.cubicCalc xs fs f2 r
       let v : V3 := (S / r) * d
